@@ -986,3 +986,249 @@ Definition history_ok {V} (parse : str -> res V) (format : V -> str) (dom : V ->
 Lemma history_ok_of {V} (parse : str -> res V) format dom :
   (forall v, dom v = true -> parse (format v) = Ok v) -> history_ok parse format dom.
 Proof. intros H. split; [apply sv_from_value_coherent, H | intros pf; apply sv_history; exact H]. Qed.
+
+(* ---------------------------------------------------------------------------------------------- *)
+(* TransactionFlag / PostingFlag                                                                  *)
+Lemma txflag_roundtrip v : dom_flag v = true -> txflag_parse (txflag_format v) = Ok v.
+Proof.
+  destruct v as [|c [|d r]]; try discriminate. intros _. unfold txflag_parse, txflag_format, str_eqb, TXN_.
+  cbn [list_eqb]. destruct (c =? 116); reflexivity.
+Qed.
+Lemma pflag_lexr v : dom_flag v = true -> lexr_pflag v = Some [].
+Proof. destruct v as [|c [|d r]]; try discriminate. cbn. intros ->. reflexivity. Qed.
+Lemma txflag_lexr v : dom_flag v = true -> lexr_txflag (txflag_format v) = Some [].
+Proof.
+  destruct v as [|c [|d r]]; try discriminate. cbn [dom_flag]. intros H. unfold lexr_txflag, txflag_format.
+  assert (E : strip_prefix TXN_ [c] = None). { cbn. destruct (c =? 116); reflexivity. }
+  rewrite E. cbn. rewrite H. reflexivity.
+Qed.
+Lemma txflag_txn : txflag_parse TXN_ = Ok [42] /\ lexr_txflag TXN_ = Some [] /\ dom_flag TXN_ = false.
+Proof. repeat split. Qed.
+
+(* ---------------------------------------------------------------------------------------------- *)
+(* Account                                                                                        *)
+Lemma body_not_colon c : is_acct_body c = true -> (c =? COLON) = false.
+Proof. unfold is_acct_body, is_upper, is_lower, is_digit, is_nonascii, DASH, COLON. lia. Qed.
+Lemma acct_groups_names names : forallb acct_name_ok names = true ->
+  forall fuel, (length names <= fuel)%nat ->
+  acct_groups fuel (concat (map (cons COLON) names)) = ([], Z.of_nat (length names)).
+Proof.
+  induction names as [|nm names IH]; intros Hok fuel Hfuel.
+  - destruct fuel; reflexivity.
+  - cbn [forallb] in Hok. apply andb_prop in Hok as [Hnm Hrest].
+    destruct fuel as [|fuel]; [cbn [length] in Hfuel; lia|].
+    destruct nm as [|d body]; [discriminate|]. cbn [acct_name_ok] in Hnm. apply andb_prop in Hnm as [Hd Hbody].
+    cbn [map concat app acct_groups]. change (COLON =? COLON) with true. rewrite Hd. cbn [andb].
+    assert (Hskip : skip is_acct_body (body ++ concat (map (cons COLON) names)) = concat (map (cons COLON) names)).
+    { rewrite (skip_all_app _ _ _ Hbody). destruct names as [|n2 names']; [reflexivity|].
+      cbn [map concat app]. apply skip_stop. reflexivity. }
+    rewrite Hskip, (IH Hrest fuel) by (cbn [length] in Hfuel; lia).
+    f_equal. cbn [length]. lia.
+Qed.
+Lemma account_lexr t names :
+  acct_type_ok t = true -> names <> [] -> forallb acct_name_ok names = true ->
+  lexr_account (account_of t names) = Some [].
+Proof.
+  intros Ht Hne Hok. destruct t as [|c body]; [discriminate|]. cbn [acct_type_ok] in Ht.
+  apply andb_prop in Ht as [Hc Hbody]. unfold account_of, lexr_account. cbn [app]. rewrite Hc.
+  assert (Hskip : skip is_acct_body (body ++ concat (map (cons COLON) names)) = concat (map (cons COLON) names)).
+  { rewrite (skip_all_app _ _ _ Hbody). destruct names as [|n2 names']; [congruence|].
+    cbn [map concat app]. apply skip_stop. reflexivity. }
+  rewrite Hskip, (acct_groups_names _ Hok).
+  - destruct names; [congruence|]. cbn [length]. destruct (1 <=? Z.of_nat (S (length names))) eqn:E; [reflexivity|lia].
+  - rewrite app_length. assert (H : (length names <= length (concat (map (cons COLON) names)))%nat).
+    { clear. induction names as [|n names IH]; [apply Nat.le_refl|]. cbn [map concat]. rewrite app_length. cbn [length]. lia. }
+    lia.
+Qed.
+
+(* ---------------------------------------------------------------------------------------------- *)
+(* Currency                                                                                       *)
+Lemma rstrip_last_kept p r : last_ok (fun x => negb (p x)) r = true -> rstrip p r = r.
+Proof.
+  induction r as [|c r IH]; [discriminate|]. destruct r as [|d r'].
+  - cbn. intros H. apply negb_true_iff in H. rewrite H. reflexivity.
+  - intros H. change (last_ok (fun x => negb (p x)) (c :: d :: r')) with (last_ok (fun x => negb (p x)) (d :: r')) in H.
+    change (rstrip p (c :: d :: r')) with (match rstrip p (d :: r') with [] => if p c then [] else [c] | t => c :: t end).
+    rewrite (IH H). reflexivity.
+Qed.
+Lemma last_ok_ext q q' r : (forall x, q x = q' x) -> last_ok q r = last_ok q' r.
+Proof.
+  intros H. induction r as [|c r IH]; [reflexivity|]. destruct r; [apply H|]. exact IH.
+Qed.
+Lemma currency_lexr v : dom_currency v = true -> lexr_currency v = Some [].
+Proof.
+  destruct v as [|c r]; [discriminate|]. cbn [dom_currency]. intros H.
+  apply andb_prop in H as [H Hstart]. apply andb_prop in H as [Hbody Hlast].
+  unfold lexr_currency. rewrite (take_all _ _ Hbody).
+  assert (Hr : rstrip (fun x => negb (is_cur_end x)) r = r).
+  { apply rstrip_last_kept. rewrite <- Hlast. apply last_ok_ext. intros x. apply negb_involutive. }
+  rewrite Hr. rewrite skipn_all.
+  destruct (c =? SLASH) eqn:Es.
+  - assert (Hu : is_upper c = false) by (apply Z.eqb_eq in Es; subst c; reflexivity).
+    rewrite Hu in Hstart. cbn [orb andb] in Hstart. rewrite Hstart. reflexivity.
+  - cbn [andb] in Hstart. rewrite orb_false_r in Hstart. rewrite Hstart.
+    destruct r; [discriminate|]. reflexivity.
+Qed.
+
+(* ---------------------------------------------------------------------------------------------- *)
+(* every lexeme is accepted by _parse_value                                                       *)
+Lemma strip_prefix_full p s : strip_prefix p s = Some [] -> s = p.
+Proof.
+  revert s. induction p as [|x p IH]; intros s; cbn [strip_prefix]; [intros H; inversion H; reflexivity|].
+  destruct s as [|c r]; [discriminate|]. destruct (c =? x) eqn:E; [|discriminate].
+  apply Z.eqb_eq in E. subst c. intros H. rewrite (IH _ H). reflexivity.
+Qed.
+Lemma bool_lexeme_accepted s : lexr_bool s = Some [] -> exists b, bool_parse s = Ok b /\ bool_format b = s.
+Proof.
+  unfold lexr_bool. destruct (strip_prefix FALSE_ s) as [r|] eqn:E.
+  - intros H. inversion H; subst r. apply strip_prefix_full in E. subst s. exists false. split; reflexivity.
+  - intros H. apply strip_prefix_full in H. subst s. exists true. split; reflexivity.
+Qed.
+Lemma null_lexeme s : lexr_null s = Some [] -> s = NULL_.
+Proof. apply strip_prefix_full. Qed.
+Lemma txflag_lexeme_accepted s : lexr_txflag s = Some [] ->
+  exists v, txflag_parse s = Ok v /\ dom_flag v = true.
+Proof.
+  unfold lexr_txflag. destruct (strip_prefix TXN_ s) as [r|] eqn:E.
+  - intros H. inversion H; subst r. apply strip_prefix_full in E. subst s. exists [42]. split; reflexivity.
+  - unfold lexr_pflag. destruct s as [|c r]; [discriminate|]. destruct (is_flagchar c) eqn:Ec; [|discriminate].
+    intros H. inversion H; subst r. exists [c]. split; [|exact Ec].
+    unfold txflag_parse. destruct (str_eqb [c] TXN_) eqn:Eq; [|reflexivity].
+    cbn in Eq. rewrite andb_false_r in Eq. discriminate.
+Qed.
+
+(* Number *)
+Lemma take_skip p s : s = take p s ++ skip p s.
+Proof. induction s as [|c s IH]; [reflexivity|]. cbn [take skip]. destruct (p c); [cbn [app]; f_equal; exact IH|reflexivity]. Qed.
+Lemma take_forall p s : forallb p (take p s) = true.
+Proof. induction s as [|c s IH]; [reflexivity|]. cbn [take]. destruct (p c) eqn:E; [cbn [forallb]; rewrite E; exact IH|reflexivity]. Qed.
+Lemma remove_commas_app a b : remove_commas (a ++ b) = remove_commas a ++ remove_commas b.
+Proof. apply filter_app. Qed.
+Lemma remove_commas_idem s : remove_commas (remove_commas s) = remove_commas s.
+Proof.
+  unfold remove_commas. induction s as [|c s IH]; [reflexivity|]. cbn [filter].
+  destruct (negb (c =? COMMA)) eqn:E; [cbn [filter]; rewrite E, IH; reflexivity|exact IH].
+Qed.
+Lemma number_parse_commas s : number_parse s = number_parse (remove_commas s).
+Proof. unfold number_parse. rewrite remove_commas_idem. reflexivity. Qed.
+(* the consumed comma groups are digits once the commas are removed *)
+Lemma comma_groups_shape : forall n s, (length s <= n)%nat ->
+  exists g, s = g ++ fst (comma_groups s) /\ forallb is_digit (remove_commas g) = true /\
+            (1 <= snd (comma_groups s) -> g <> []).
+Proof.
+  induction n as [|n IH]; intros s Hn.
+  - destruct s; [|cbn in Hn; lia]. exists []. repeat split. cbn. lia.
+  - destruct s as [|c [|d1 [|d2 [|d3 r]]]]; try (exists []; repeat split; cbn; lia).
+    cbn [comma_groups].
+    destruct ((c =? COMMA) && is_digit d1 && is_digit d2 && is_digit d3) eqn:E;
+      [|exists []; repeat split; cbn; lia].
+    apply andb_prop in E as [E H3]. apply andb_prop in E as [E H2]. apply andb_prop in E as [Hc H1].
+    destruct (IH r) as [g [Hg [Hd _]]]; [cbn [length] in Hn; lia|].
+    destruct (comma_groups r) as [t k] eqn:Er. cbn [fst snd] in *.
+    exists (c :: d1 :: d2 :: d3 :: g). split; [cbn [app]; rewrite <- Hg; reflexivity|]. split; [|discriminate].
+    unfold remove_commas in *. cbn [filter]. rewrite Hc. cbn [negb].
+    rewrite (digit_not_comma _ H1), (digit_not_comma _ H2), (digit_not_comma _ H3). cbn [forallb].
+    rewrite H1, H2, H3. exact Hd.
+Qed.
+Lemma lexr_frac_nil t : lexr_frac t = [] -> t = [] \/ exists fr, t = DOT :: fr /\ forallb is_digit fr = true.
+Proof.
+  unfold lexr_frac. destruct t as [|c r]; [left; reflexivity|]. destruct (c =? DOT) eqn:E; [|discriminate].
+  intros H. right. exists r. apply Z.eqb_eq in E. subst c. split; [reflexivity|].
+  destruct (skip_prefix is_digit r) as [pre [H1 H2]]. rewrite H, app_nil_r in H1. subst r. exact H2.
+Qed.
+Lemma number_parse_clean ip t : ip <> [] -> forallb is_digit ip = true ->
+  (t = [] \/ exists fr, t = DOT :: fr /\ forallb is_digit fr = true) ->
+  exists v, number_parse (ip ++ t) = Ok v.
+Proof.
+  intros Hne Hip [Ht | [fr [Ht Hfr]]]; subst t.
+  - rewrite app_nil_r. eexists. apply number_parse_int; assumption.
+  - eexists. apply number_parse_dot; assumption.
+Qed.
+Lemma number_lexeme_accepted s : lexr_number s = Some [] -> exists v, number_parse s = Ok v.
+Proof.
+  unfold lexr_number. pose proof (take_skip is_digit s) as Hs. pose proof (take_forall is_digit s) as Hd.
+  destruct (zlen (take is_digit s) =? 0) eqn:E0; [discriminate|].
+  assert (Hne : take is_digit s <> []) by (intros H; rewrite H in E0; discriminate).
+  destruct (comma_groups_shape (length (skip is_digit s)) (skip is_digit s) (Nat.le_refl _)) as [g [Hg [Hgd Hk]]].
+  destruct (comma_groups (skip is_digit s)) as [t k] eqn:Ec. cbn [fst snd] in *.
+  destruct ((zlen (take is_digit s) <=? 3) && (1 <=? k)) eqn:EA; intros H; inversion H as [H'].
+  - rewrite number_parse_commas, Hs, Hg, !remove_commas_app.
+    assert (Ht := lexr_frac_nil _ H').
+    assert (Hrt : remove_commas t = t).
+    { destruct Ht as [-> | [fr [-> Hfr]]]; [reflexivity|]. apply remove_commas_plain. cbn [forallb].
+      change (negb (DOT =? COMMA)) with true. cbn [andb]. revert Hfr. apply forallb_imp. exact digit_not_comma. }
+    rewrite Hrt, (remove_commas_plain (take is_digit s)) by (revert Hd; apply forallb_imp; exact digit_not_comma).
+    rewrite app_assoc. apply number_parse_clean; [|apply forallb_app_true; assumption|exact Ht].
+    destruct (take is_digit s); [congruence|discriminate].
+  - rewrite Hs. apply number_parse_clean; [exact Hne | exact Hd | exact (lexr_frac_nil _ H')].
+Qed.
+
+(* Date: a DATE lexeme is three digit fields; it is accepted exactly when they form a calendar date *)
+Lemma digit_not_datesep c : is_digit c = true -> is_datesep c = false.
+Proof. unfold is_digit, is_datesep, DASH, SLASH. lia. Qed.
+Lemma split_datesep_digits_only a : forallb is_digit a = true -> split_datesep a = [a].
+Proof.
+  induction a as [|c a IH]; [reflexivity|]. cbn [forallb split_datesep]. intros H.
+  apply andb_prop in H as [Hc Ha]. rewrite (digit_not_datesep _ Hc), (IH Ha). reflexivity.
+Qed.
+Lemma split_datesep_field a c b : forallb is_digit a = true -> is_datesep c = true ->
+  split_datesep (a ++ c :: b) = a :: split_datesep b.
+Proof.
+  induction a as [|x a IH]; cbn [forallb app split_datesep]; intros Ha Hc; [rewrite Hc; reflexivity|].
+  apply andb_prop in Ha as [Hx Ha]. rewrite (digit_not_datesep _ Hx), (IH Ha Hc). reflexivity.
+Qed.
+Lemma lexr_d12_shape s t : lexr_d12 s = Some t ->
+  exists M, s = M ++ t /\ M <> [] /\ forallb is_digit M = true.
+Proof.
+  unfold lexr_d12. destruct s as [|c r]; [discriminate|]. destruct (is_digit c) eqn:Ec; [|discriminate].
+  destruct r as [|d r'].
+  - intros H. inversion H. exists [c]. cbn. rewrite Ec. repeat split. discriminate.
+  - destruct (is_digit d) eqn:Ed; intros H; inversion H.
+    + exists [c; d]. cbn. rewrite Ec, Ed. repeat split. discriminate.
+    + exists [c]. cbn. rewrite Ec. repeat split. discriminate.
+Qed.
+Lemma lexr_sep_shape s t : lexr_sep s = Some t -> exists c, s = c :: t /\ is_datesep c = true.
+Proof.
+  unfold lexr_sep. destruct s as [|c r]; [discriminate|]. destruct (is_datesep c) eqn:E; [|discriminate].
+  intros H. inversion H. exists c. split; [reflexivity|exact E].
+Qed.
+Lemma py_int_digits a : a <> [] -> forallb is_digit a = true -> py_int a = Ok (int_of_digits a).
+Proof. intros Hne Ha. unfold py_int. destruct a; [congruence|]. cbn [is_nil]. rewrite Ha. reflexivity. Qed.
+Lemma date_lexeme_accepted s : lexr_date s = Some [] ->
+  exists a b c c1 c2, s = a ++ c1 :: b ++ c2 :: c /\
+    date_parse s = let v := (int_of_digits a, int_of_digits b, int_of_digits c) in
+                   if valid_date v then Ok v else Err ValueError.
+Proof.
+  unfold lexr_date. pose proof (take_skip is_digit s) as Hs. pose proof (take_forall is_digit s) as Hy.
+  destruct (4 <=? zlen (take is_digit s)) eqn:E4; [|discriminate].
+  destruct (lexr_sep (skip is_digit s)) as [s1|] eqn:E1; [|discriminate].
+  destruct (lexr_d12 s1) as [s2|] eqn:E2; [|discriminate].
+  destruct (lexr_sep s2) as [s3|] eqn:E3; [|discriminate].
+  intros E5.
+  destruct (lexr_sep_shape _ _ E1) as [c1 [H1 Hc1]]. destruct (lexr_d12_shape _ _ E2) as [M [H2 [HMne HM]]].
+  destruct (lexr_sep_shape _ _ E3) as [c2 [H3 Hc2]]. destruct (lexr_d12_shape _ _ E5) as [D [H4 [HDne HD]]].
+  rewrite app_nil_r in H4. subst s3 s2 s1.
+  assert (HYne : take is_digit s <> []) by (intros H; rewrite H in E4; discriminate).
+  exists (take is_digit s), M, D, c1, c2. rewrite H1 in Hs. split; [exact Hs|].
+  unfold date_parse. rewrite Hs at 1.
+  rewrite (split_datesep_field _ _ _ Hy Hc1), (split_datesep_field _ _ _ HM Hc2), (split_datesep_digits_only _ HD).
+  rewrite (py_int_digits _ HYne Hy), (py_int_digits _ HMne HM), (py_int_digits _ HDne HD). reflexivity.
+Qed.
+
+(* Number histories with any exponent: the raw text parses to a numerically equal Decimal *)
+Lemma dec_eqb_refl v : dec_eqb v v = true.
+Proof. destruct v as [[s d] e]. unfold dec_eqb. rewrite !Z.eqb_refl. reflexivity. Qed.
+Definition num_coherent (t : tok decimal) : Prop :=
+  exists w, number_parse (t_raw t) = Ok w /\ dec_eqb (t_val t) w = true.
+Lemma number_history_numeric pf t ops :
+  num_coherent t -> Forall (op_ok number_parse dom_number) ops ->
+  num_coherent (sv_run number_parse number_format pf t ops).
+Proof.
+  revert t. induction ops as [|o ops IH]; intros t Ht Hops; cbn [sv_run]; [exact Ht|].
+  inversion Hops as [|o' ops' Ho Hrest]; subst. apply IH; [|exact Hrest].
+  destruct o as [s|v]; cbn [op_ok sv_step] in *.
+  - destruct Ho as [v Hv]. rewrite Hv. cbn [fst]. exists v. cbn. split; [exact Hv | apply dec_eqb_refl].
+  - cbn [fst]. destruct (number_roundtrip v Ho) as [w [Hp [He _]]]. exists w. cbn. split; assumption.
+Qed.
+Lemma number_from_value_numeric v : dom_number v = true -> num_coherent (sv_from_value number_format v).
+Proof. intros H. destruct (number_roundtrip v H) as [w [Hp [He _]]]. exists w. cbn. split; assumption. Qed.
